@@ -95,12 +95,10 @@ Definition tdrawn_VCCS (e : tctx) (v ib : Z -> sig) (r : Z) : sig :=
 (* CCCS: draws F i_ctrl at + *)
 Definition tdrawn_CCCS (e : tctx) (v ib : Z -> sig) (r : Z) : sig :=
   tthru (tp0 e) (tp1 e) r (sscale (fst (t_op e pArg1)) (ib (tbctrl e))).
-(* CCVS: v+ - v- = H i_ctrl (+ the 0 V sensing branch the code inserts for a non-source control) *)
-Definition tdrawn_CCVS (e : tctx) (v ib : Z -> sig) (r : Z) : sig :=
-  sadd (tthru (tp0 e) (tp1 e) r (ib (tbown e))) (if t_ctrl_is_vsrc e then szero else tthru (tc0 e) (tc1 e) r (ib (tbctrl e))).
+(* CCVS: v+ - v- = H i_ctrl (the controlling element must be a voltage source, as for CCCS) *)
+Definition tdrawn_CCVS (e : tctx) (v ib : Z -> sig) (r : Z) : sig := tthru (tp0 e) (tp1 e) r (ib (tbown e)).
 Definition tbrel_CCVS (e : tctx) (v ib : Z -> sig) (q : Z) : sig :=
-  sadd (tind (tbown e) q (ssub (tdV01 e v) (sscale (fst (t_op e pArg1)) (ib (tbctrl e)))))
-       (if t_ctrl_is_vsrc e then szero else tind (tbctrl e) q (ssub (tvv v (tc0 e)) (tvv v (tc1 e)))).
+  tind (tbown e) q (ssub (tdV01 e v) (sscale (fst (t_op e pArg1)) (ib (tbctrl e)))).
 (* K: adds -M (D i_2 - i02 δ) to L1's relation and -M (D i_1 - i01 δ) to L2's  (PHYSICS: the
    flux of the partner's initial current is part of the relation) *)
 Definition tbrel_K (e : tctx) (v ib : Z -> sig) (q : Z) : sig :=
@@ -194,11 +192,11 @@ Theorem transfer_CCCS e r : gain_const e pArg1 ->
   Lval s (tdrawn_CCCS e v ib r) = drawn_CCCS (ctx_at s e) Lv Lib r.
 Proof. unfold gain_const. intros H1. unfold tdrawn_CCCS, drawn_CCCS. cbn [ctx_at par p0 p1 bctrl is_srcp]. rewrite H1. push. unfold thru. ring. Qed.
 Theorem transfer_CCVS_d e r : Lval s (tdrawn_CCVS e v ib r) = drawn_CCVS (ctx_at s e) Lv Lib r.
-Proof. unfold tdrawn_CCVS, drawn_CCVS. cbn [ctx_at ctrl_is_vsrc p0 p1 c0 c1 bown bctrl]. destruct (t_ctrl_is_vsrc e); push; reflexivity. Qed.
+Proof. unfold tdrawn_CCVS, drawn_CCVS. cbn [ctx_at p0 p1 bown]. push. reflexivity. Qed.
 Theorem transfer_CCVS_b e q : gain_const e pArg1 ->
   Lval s (tbrel_CCVS e v ib q) = brel_CCVS (ctx_at s e) Lv Lib q.
-Proof. unfold gain_const. intros H1. unfold tbrel_CCVS, brel_CCVS. cbn [ctx_at ctrl_is_vsrc par c0 c1 bown bctrl is_srcp]. rewrite H1.
-  destruct (t_ctrl_is_vsrc e); push; ring. Qed.
+Proof. unfold gain_const. intros H1. unfold tbrel_CCVS, brel_CCVS. cbn [ctx_at par bown bctrl is_srcp]. rewrite H1.
+  push; ring. Qed.
 (* the stamp carries the flux M·i0k of the partner's initial current in an initial value analysis
    (kind ivp); in the other Laplace-domain kinds Lcapy has no initial conditions, so physics and
    code agree there when the coupled inductors start at zero current *)
